@@ -7,6 +7,7 @@ import (
 	"regexp"
 	"sort"
 	"strings"
+	"time"
 
 	"verif/mc/core"
 )
@@ -59,7 +60,13 @@ type mapOrdStats struct {
 	Bound       int            `json:"deviation_bound_completed"`
 	TasksNoMaps int            `json:"tasks_without_a_choice_point"`
 	Differing   int            `json:"tasks_whose_result_depends_on_the_order"`
+	Capped      bool           `json:"time_budget_reached"` // a level was cut short: Bound is the last level completed in full
 }
+
+// mapOrdBudget bounds the time one exploreMapOrders call may start new work in (0 = unbounded).
+// Levels run in chunks; when the budget is spent no further chunk is started, the statistics say
+// which level was completed in full, and the caller reports exhaustive=false.
+var mapOrdBudget time.Duration
 
 // exploreMapOrders runs every task under every deviation of at most `bound`
 // range statements. canon projects a handler result onto what must not depend
@@ -96,67 +103,82 @@ func exploreMapOrders(uid int, sysName string, args []any, bound int, canon func
 	}
 	base := make([]string, len(args))
 	reported := map[int]bool{}
+	started := time.Now()
+	const chunk = 20000
 	for level := 0; level <= bound && len(frontier) > 0; level++ {
 		var next []run
-		margs := make([]MapOrdArg, len(frontier))
-		pool.Map("mapord", len(frontier), func(k int) any {
-			f := frontier[k]
-			margs[k] = MapOrdArg{Sys: sysName, Arg: raws[f.task], Choices: f.choices}
-			return margs[k]
-		}, func(k int, r core.Result) {
-			st.Runs++
-			f := frontier[k]
-			if r.Hung || r.Crashed {
-				if !reported[f.task] {
-					reported[f.task] = true
-					report(f.task, f.choices, base[f.task], "worker hung or crashed: "+firstLines(r.Stderr, 2), margs[k])
-				}
+		whole := frontier
+		for off := 0; off < len(whole); off += chunk {
+			if level > 0 && mapOrdBudget > 0 && time.Since(started) > mapOrdBudget {
+				st.Capped = true
+				st.Bound = level - 1
 				return
 			}
-			var out MapOrdOut
-			core.MustOut(r, &out)
-			if out.Bad != "" {
-				core.Fatalf("map-order replay diverged: %s (task %d choices %v)", out.Bad, f.task, f.choices)
+			end := off + chunk
+			if end > len(whole) {
+				end = len(whole)
 			}
-			got := ""
-			switch {
-			case out.Panic != "":
-				got = "PANIC " + out.Panic
-			case out.Err != "":
-				got = "HANDLER-ERROR " + out.Err
-			default:
-				got = canon(f.task, out.Out)
-			}
-			if level == 0 {
-				base[f.task] = got
-				if len(out.Points) == 0 {
-					st.TasksNoMaps++
+			frontier := whole[off:end]
+			margs := make([]MapOrdArg, len(frontier))
+			pool.Map("mapord", len(frontier), func(k int) any {
+				f := frontier[k]
+				margs[k] = MapOrdArg{Sys: sysName, Arg: raws[f.task], Choices: f.choices}
+				return margs[k]
+			}, func(k int, r core.Result) {
+				st.Runs++
+				f := frontier[k]
+				if r.Hung || r.Crashed {
+					if !reported[f.task] {
+						reported[f.task] = true
+						report(f.task, f.choices, base[f.task], "worker hung or crashed: "+firstLines(r.Stderr, 2), margs[k])
+					}
+					return
 				}
-				for _, p := range out.Points {
-					st.Points++
-					st.Sites[p.Site]++
+				var out MapOrdOut
+				core.MustOut(r, &out)
+				if out.Bad != "" {
+					core.Fatalf("map-order replay diverged: %s (task %d choices %v)", out.Bad, f.task, f.choices)
 				}
-			} else if got != base[f.task] && !reported[f.task] {
-				reported[f.task] = true
-				st.Differing++
-				report(f.task, f.choices, base[f.task], got, margs[k])
-			}
-			if f.devs < bound {
-				for pi := f.from; pi < len(out.Points); pi++ {
-					for alt := 0; alt < out.Points[pi].Alts; alt++ {
-						if alt == out.Points[pi].Chose {
-							continue
+				got := ""
+				switch {
+				case out.Panic != "":
+					got = "PANIC " + out.Panic
+				case out.Err != "":
+					got = "HANDLER-ERROR " + out.Err
+				default:
+					got = canon(f.task, out.Out)
+				}
+				if level == 0 {
+					base[f.task] = got
+					if len(out.Points) == 0 {
+						st.TasksNoMaps++
+					}
+					for _, p := range out.Points {
+						st.Points++
+						st.Sites[p.Site]++
+					}
+				} else if got != base[f.task] && !reported[f.task] {
+					reported[f.task] = true
+					st.Differing++
+					report(f.task, f.choices, base[f.task], got, margs[k])
+				}
+				if f.devs < bound {
+					for pi := f.from; pi < len(out.Points); pi++ {
+						for alt := 0; alt < out.Points[pi].Alts; alt++ {
+							if alt == out.Points[pi].Chose {
+								continue
+							}
+							ch := make([]int, pi+1)
+							for q := 0; q < pi; q++ {
+								ch[q] = out.Points[q].Chose
+							}
+							ch[pi] = alt
+							next = append(next, run{task: f.task, choices: ch, devs: f.devs + 1, from: pi + 1})
 						}
-						ch := make([]int, pi+1)
-						for q := 0; q < pi; q++ {
-							ch[q] = out.Points[q].Chose
-						}
-						ch[pi] = alt
-						next = append(next, run{task: f.task, choices: ch, devs: f.devs + 1, from: pi + 1})
 					}
 				}
-			}
-		})
+			})
+		}
 		frontier = next
 	}
 }
@@ -168,7 +190,7 @@ func (s *mapOrdStats) summary() map[string]any {
 	}
 	sort.Strings(sites)
 	return map[string]any{"part": "map-iteration-orders (E4)", "tasks": s.Tasks, "runs": s.Runs, "choice_points_in_baseline_runs": s.Points,
-		"tasks_without_a_choice_point": s.TasksNoMaps, "deviation_bound_completed": s.Bound, "range_over_map_sites_reached": strings.Join(sites, ", "),
+		"tasks_without_a_choice_point": s.TasksNoMaps, "deviation_bound_completed": s.Bound, "time_budget_reached": s.Capped, "range_over_map_sites_reached": strings.Join(sites, ", "),
 		"orders_per_point": "all n! up to 4 keys; canonical, reverse and every rotation beyond"}
 }
 
